@@ -74,6 +74,7 @@ type Ctx struct {
 	ShadowAll  bool           // shadow every case (else only cases that name a twin)
 	Shadow     bool           // also run every verification case twice through a re-used Options value (history independence)
 	SharedPool chan any       // pool of re-used Options values (one per worker), managed by props
+	Twins      *TwinSet       // candidates for the default-root phase (nil: the property has none)
 
 	start  time.Time
 	mu     sync.Mutex
